@@ -7,7 +7,7 @@
     histories no two replica sets of the ExtendedDaemonSet ever carry the same template hash: re-applying or
     reverting to a template finds the one replica set of that template and creates none. *)
 From Coq Require Import List ZArith NArith Bool Lia Relations Permutation.
-From EDS Require Import Model.Objects Model.EdsReconcile Proofs.EdsWrites.
+From EDS Require Import Model.Objects Model.PodSpec Model.ErsReconcile Model.EdsReconcile Proofs.EdsWrites Proofs.C04Proofs.
 Import ListNotations.
 
 Definition hash_of (r : ers) : list name := match r_hash_annot r with Some h => [h] | None => [] end.
@@ -18,7 +18,8 @@ Definition own (e : eds) (r : ers) : bool := N.eqb (r_ns r) (e_ns e) && N.eqb (r
 (** what the API server is assumed to do with a creation request: the stored object has the namespace, the
     linking label and the hash annotation that were sent (its name, uid, stamps are the server's) *)
 Definition born_from (nr : new_rs) (r : ers) : Prop :=
-  r_ns r = nr_ns nr /\ r_eds_label r = nr_eds_label nr /\ r_hash_annot r = Some (nr_hash_annot nr).
+  r_ns r = nr_ns nr /\ r_eds_label r = nr_eds_label nr /\ r_hash_annot r = Some (nr_hash_annot nr) /\
+  r_tmplgen r = nr_tmplgen nr /\ r_tmpl_hash r = nr_tmpl_hash nr.
 
 (** the effect of a reconcile's writes on the stored replica sets; any write may be rejected ([ap_skip], which
     also covers the writes to other kinds of object); a created object appears anywhere in the list order *)
@@ -32,7 +33,8 @@ Inductive applied : list eds_write -> list ers -> list ers -> Prop :=
     applied (WDeleteRs n :: ws) rss rss'.
 
 Definition same_identity (r r' : ers) : Prop :=
-  r_ns r' = r_ns r /\ r_eds_label r' = r_eds_label r /\ r_hash_annot r' = r_hash_annot r.
+  r_ns r' = r_ns r /\ r_eds_label r' = r_eds_label r /\ r_hash_annot r' = r_hash_annot r /\
+  r_tmplgen r' = r_tmplgen r /\ r_tmpl_hash r' = r_tmpl_hash r.
 
 Inductive hstep : eds * list ers -> eds * list ers -> Prop :=
 | h_user : forall e e' rss, e_ns e' = e_ns e -> e_name e' = e_name e -> hstep (e, rss) (e', rss)
@@ -67,7 +69,7 @@ Proof. intros e e' rss H1 H2. unfold own_hashes, rs_of_eds. rewrite H1, H2. refl
 
 Lemma own_hashes_update : forall e rss rss', Forall2 same_identity rss rss' -> own_hashes e rss' = own_hashes e rss.
 Proof.
-  intros e rss rss' H. induction H as [|r r' l l' [H1 [H2 H3]] _ IH]; [reflexivity|].
+  intros e rss rss' H. induction H as [|r r' l l' [H1 [H2 [H3 _]]] _ IH]; [reflexivity|].
   rewrite !own_hashes_cons, IH. unfold own, hash_of. rewrite H1, H2, H3. reflexivity.
 Qed.
 
@@ -131,7 +133,7 @@ Proof.
   - assert (Hin : In nr (creates_of (ep_writes pl))) by (rewrite Hc; left; reflexivity).
     destruct (create_only_if_none_matches sn pl nr Hs Hin) as [e0 [Ho0 [Hnone [Hns [Hlab [_ [Hh [_ [_ Hw]]]]]]]]].
     rewrite Ho in Ho0. inversion Ho0; subst e0. clear Ho0.
-    rewrite Hw in Hap. inversion Hap as [ | w ws a b Hrest | nr0 r ws l1 l2 b [B1 [B2 B3]] Hrest Heq Hl | ]; subst.
+    rewrite Hw in Hap. inversion Hap as [ | w ws a b Hrest | nr0 r ws l1 l2 b [B1 [B2 [B3 _]]] Hrest Heq Hl | ]; subst.
     + apply applied_nil in Hrest. subst. exact Hinv.
     + apply applied_nil in Hrest. subst rss'. rewrite <- Hl in Hinv, Hnone.
       apply one_per_template_insert; [exact Hinv|].
@@ -191,4 +193,91 @@ Proof.
   rewrite Ho in Ho0. inversion Ho0; subst e0.
   assert (Hr : In r (rs_of_eds e (es_rss sn))) by (unfold rs_of_eds; apply filter_In; split; [exact Hin | exact Hown]).
   specialize (Hnone r Hr). unfold rs_up_to_date in Hnone. rewrite Hh, Heq, N.eqb_refl in Hnone. discriminate.
+Qed.
+
+(** ** The second invariant: every replica set of the ExtendedDaemonSet is faithful to the template it was created
+    from - its hash annotation, its templateGeneration and the hash of the template it holds are one value - in
+    every store of every history (same steps; [born_from] and [same_identity] say that the API server stores the
+    template and templateGeneration that were sent and that no later update rewrites them). *)
+Definition faithful (r : ers) : Prop := r_hash_annot r = Some (r_tmplgen r) /\ r_tmpl_hash r = r_tmplgen r.
+Definition all_faithful (e : eds) (rss : list ers) : Prop := forall r, In r (rs_of_eds e rss) -> faithful r.
+
+Lemma Forall2_In_r : forall {A} (R : A -> A -> Prop) l l' y, Forall2 R l l' -> In y l' -> exists x, In x l /\ R x y.
+Proof.
+  intros A R l l' y H. induction H as [|a b l l' Hab _ IH]; intros Hin; [contradiction|].
+  destruct Hin as [<-|Hin]; [exists a; split; [left; reflexivity | exact Hab]|].
+  destruct (IH Hin) as [x [Hx HR]]. exists x. split; [right; exact Hx | exact HR].
+Qed.
+
+Lemma in_own : forall e r rss, In r (rs_of_eds e rss) <-> In r rss /\ own e r = true.
+Proof. intros e r rss. unfold rs_of_eds, own. apply filter_In. Qed.
+
+Lemma applied_faithful : forall e ws rss rss', applied ws rss rss' ->
+  (forall nr, In nr (creates_of ws) -> nr_hash_annot nr = nr_tmplgen nr /\ nr_tmpl_hash nr = nr_tmplgen nr) ->
+  all_faithful e rss -> all_faithful e rss'.
+Proof.
+  intros e ws rss rss' H.
+  induction H as [rss | w ws rss rss' _ IH | nr r ws l1 l2 rss' [_ [_ [B3 [B4 B5]]]] _ IH | n ns ws rss rss' _ IH];
+    intros Hc Hinv.
+  - exact Hinv.
+  - apply IH; [|exact Hinv]. intros nr Hin. apply Hc. unfold creates_of in *. cbn [flat_map]. apply in_or_app. right. exact Hin.
+  - apply IH.
+    + intros nr' Hin. apply Hc. unfold creates_of in *. cbn [flat_map]. apply in_or_app. right. exact Hin.
+    + destruct (Hc nr) as [C1 C2]; [unfold creates_of; cbn [flat_map]; left; reflexivity|].
+      intros x Hx. apply in_own in Hx. destruct Hx as [Hx Hox]. apply in_app_or in Hx.
+      assert (Hcase : x = r \/ In x (l1 ++ l2)).
+      { destruct Hx as [Hx|[Hx|Hx]]; [right; apply in_or_app; left; exact Hx | left; symmetry; exact Hx
+                                       | right; apply in_or_app; right; exact Hx]. }
+      destruct Hcase as [->|Hx'].
+      * unfold faithful. rewrite B3, B4, B5, C1, C2. split; reflexivity.
+      * apply Hinv. apply in_own. split; assumption.
+  - apply IH; [exact Hc|]. intros x Hx. apply in_own in Hx. destruct Hx as [Hx Hox].
+    apply filter_In in Hx. destruct Hx as [Hx _]. apply Hinv. apply in_own. split; assumption.
+Qed.
+
+Lemma hstep_keeps_faithful : forall s s', hstep s s' -> all_faithful (fst s) (snd s) -> all_faithful (fst s') (snd s').
+Proof.
+  intros s s' H.
+  destruct H as [e e' rss H1 H2 | e rss rss' HF | e rss f | e l1 l2 r Hown | e e' rss sn pl rss' Ho Hr Hs Hap H1 H2];
+    cbn [fst snd]; intros Hinv x Hx.
+  - apply Hinv. unfold rs_of_eds in *. rewrite H1, H2 in Hx. exact Hx.
+  - apply in_own in Hx. destruct Hx as [Hx Hox].
+    destruct (Forall2_In_r _ _ _ _ HF Hx) as [y [Hy [I1 [I2 [I3 [I4 I5]]]]]].
+    assert (Hfy : faithful y).
+    { apply Hinv. apply in_own. split; [exact Hy|]. unfold own in *. rewrite <- I1, <- I2. exact Hox. }
+    unfold faithful in *. rewrite I3, I4, I5. exact Hfy.
+  - apply in_own in Hx. destruct Hx as [Hx Hox]. apply filter_In in Hx. destruct Hx as [Hx _].
+    apply Hinv. apply in_own. split; assumption.
+  - apply in_own in Hx. destruct Hx as [Hx Hox]. apply in_app_or in Hx.
+    destruct Hx as [Hx|[Hx|Hx]].
+    + apply Hinv. apply in_own. split; [apply in_or_app; left; exact Hx | exact Hox].
+    + subst x. rewrite Hown in Hox. discriminate.
+    + apply Hinv. apply in_own. split; [apply in_or_app; right; exact Hx | exact Hox].
+  - subst rss. assert (Hx' : In x (rs_of_eds e rss')) by (unfold rs_of_eds in *; rewrite H1, H2 in Hx; exact Hx).
+    clear Hx. revert x Hx'. apply (applied_faithful e _ _ _ Hap); [|exact Hinv].
+    intros nr Hin. destruct (create_only_if_none_matches sn pl nr Hs Hin) as [e0 [_ [_ [_ [_ [_ [Ha [Hg [Ht _]]]]]]]]].
+    rewrite Ha, Hg, Ht. split; reflexivity.
+Qed.
+
+Theorem history_faithful : forall s s', clos_refl_trans _ hstep s s' ->
+  all_faithful (fst s) (snd s) -> all_faithful (fst s') (snd s').
+Proof.
+  intros s s' H. induction H as [s s' H | s | s t u _ IH1 _ IH2]; intros Hinv.
+  - apply (hstep_keeps_faithful s s' H Hinv).
+  - exact Hinv.
+  - apply IH2, IH1, Hinv.
+Qed.
+
+(** read out on the pods: in a store that satisfies the invariant, every pod a replica set of the ExtendedDaemonSet
+    creates is stamped with the hash that replica set records in its annotation, which is the hash of the template
+    it holds *)
+Lemma pods_carry_recorded_hash : forall e rss sn ch pl nn np,
+  all_faithful e rss -> In (sn_rs sn) rss -> own e (sn_rs sn) = true ->
+  ers_sync sn ch = Ok pl -> In (nn, np) (pl_new_pods pl) ->
+  r_hash_annot (sn_rs sn) = Some (np_hash np) /\ r_tmpl_hash (sn_rs sn) = np_hash np.
+Proof.
+  intros e rss sn ch pl nn np Hinv Hin Hown Hs Hp.
+  destruct (created_pods_identity sn ch pl nn np Hs Hp) as [Hh _].
+  destruct (Hinv (sn_rs sn)) as [F1 F2]; [apply in_own; split; assumption|].
+  rewrite Hh. split; assumption.
 Qed.
